@@ -10,41 +10,55 @@ Import ListNotations.
 Open Scope N_scope.
 
 (* ---------------------------------------------------------------------------------------------------------------
-   1. exact fan-out, for every reachable state and every kind of handler (returning, raising, rejecting a keyword,
-   calling back into unsubscribe()).  The dispatch walks the snapshot of the handler list taken when the EVENT arrived,
-   in subscription order ([Dispatch], Proofs/SessionSubProofs.v):
-     - an entry whose subscription is still active when its turn comes is invoked exactly once with
-       [expected_invocation ev e];
+   1. exact fan-out, for every reachable state and every kind of handler: any signature (fixed / *args / **kwargs /
+   keyword-only), subscribed with or without check_types, returning, raising, rejecting the call, calling back into
+   unsubscribe().  The dispatch walks the snapshot of the handler list taken when the EVENT arrived, in subscription
+   order ([Dispatch], Proofs/SessionSubProofs.v):
+     - an entry whose subscription is still active when its turn comes is called exactly once with
+       [expected_invocation ev e] - what the handler FUNCTION receives, also behind the check_types wrapper:
+         * inside the loop ([now]); the loop continues in the state the handler left ([after_handler]);
+         * or, for a coroutine handler on asyncio (the check_types wrapper), as a Task ([later]) whose body runs after
+           the loop, one Task after the other ([RunLater]);
      - an entry whose subscription was deactivated by a handler called earlier for this same event is passed over;
-     - nothing else is invoked.                                                                                       *)
+     - nothing else is called: the invocations are exactly [now] followed by those of the Tasks.
+   Under Twisted nothing is ever deferred (C11_twisted_no_task).                                                       *)
 Theorem C11_exact_fanout : forall fl ops ev, let s := final fl ops in
   s_joined s = true -> In (e_sub ev) (keys (s_subs s)) ->
-  Dispatch ev s (attached s (e_sub ev)) (invocations (snd (step fl s (OpEvent ev)))) (fst (step fl s (OpEvent ev))).
+  exists now later s1,
+    Dispatch fl ev s (attached s (e_sub ev)) now later s1 /\
+    RunLater ev s1 later (fst (step fl s (OpEvent ev))) /\
+    invocations (snd (step fl s (OpEvent ev))) = now ++ map (expected_invocation ev) later.
 Proof. intros fl ops ev. exact (exact_fanout fl (final fl ops) ev). Qed.
 Print Assumptions C11_exact_fanout.
 
-(* what the discipline means, unfolded: (a) the invocations are an order-preserving, duplicate-free selection of the
-   demanded ones; (b) no handler still subscribed when the dispatch ends has been passed over; (c) a subscription
-   that is inactive at some point of the dispatch is not invoked for the rest of it *)
-Theorem C11_dispatch_selection : forall ev s snap invs s', Dispatch ev s snap invs s' ->
-  sublist invs (map (expected_invocation ev) snap).
+Theorem C11_twisted_no_task : forall ev s snap now later s', Dispatch Tx ev s snap now later s' -> later = [].
+Proof. exact dispatch_tx_no_task. Qed.
+Print Assumptions C11_twisted_no_task.
+
+(* what the discipline means, unfolded: (a) the calls are an order-preserving, duplicate-free selection of the
+   demanded ones; (b) no handler still subscribed when the loop ends has been passed over; (c) a subscription that is
+   inactive at some point of the loop is not called for the rest of it *)
+Theorem C11_dispatch_selection : forall fl ev s snap now later s', Dispatch fl ev s snap now later s' ->
+  sublist now (map (expected_invocation ev) snap) /\ sublist later snap.
 Proof. exact dispatch_sublist. Qed.
 Print Assumptions C11_dispatch_selection.
 
-Theorem C11_dispatch_no_skip : forall ev s snap invs s', Dispatch ev s snap invs s' ->
-  forall e, In e snap -> is_active s' (se_label e) = true -> In (expected_invocation ev e) invs.
+Theorem C11_dispatch_no_skip : forall fl ev s snap now later s', Dispatch fl ev s snap now later s' ->
+  forall e, In e snap -> is_active s' (se_label e) = true -> In (expected_invocation ev e) now \/ In e later.
 Proof. exact dispatch_no_skip. Qed.
 Print Assumptions C11_dispatch_no_skip.
 
-Theorem C11_dispatch_never_after : forall ev s snap invs s' l, Dispatch ev s snap invs s' ->
-  is_active s l = false -> ~ In l (map (fun x => fst (fst x)) invs).
+Theorem C11_dispatch_never_after : forall fl ev s snap now later s' l, Dispatch fl ev s snap now later s' ->
+  is_active s l = false -> ~ In l (map (fun x => fst (fst x)) now) /\ ~ In l (labels later).
 Proof. exact dispatch_never_after. Qed.
 Print Assumptions C11_dispatch_never_after.
 
-(* the plain equation when no attached handler calls back into the session during the dispatch: exactly the handlers
-   attached at arrival, once each, in subscription order, each with the published args/kwargs + its own details *)
+(* the plain equation when no attached handler calls back into the session during the dispatch and none is a coroutine
+   on asyncio (always so under Twisted): exactly the handlers attached at arrival, once each, in subscription order,
+   each with the published args/kwargs + its own details *)
 Theorem C11_exact_fanout_plain : forall fl ops ev, let s := final fl ops in
   s_joined s = true -> In (e_sub ev) (keys (s_subs s)) -> nonreentrant_at s (e_sub ev) ->
+  (forall e, In e (attached s (e_sub ev)) -> deferred fl e = false) ->
   invocations (snd (step fl s (OpEvent ev))) = map (expected_invocation ev) (attached s (e_sub ev)).
 Proof. exact exact_fanout_nonreentrant. Qed.
 Print Assumptions C11_exact_fanout_plain.
@@ -69,13 +83,16 @@ Proof. exact unsubscribe_removes. Qed.
 Print Assumptions C11_unsubscribe_removes.
 
 (* ---------------------------------------------------------------------------------------------------------------
-   2. isolation: whatever the handlers do short of calling back into the session (return, raise, be called with a
-   keyword they reject), every attached handler gets its invocation; nothing escapes onMessage; the session state is
-   unchanged; nothing is sent.                                                                                       *)
+   2. isolation: whatever the handlers do short of calling back into the session (return, raise, be called with
+   arguments they reject, fail the check_types hints), every attached handler gets its invocation (plain handlers
+   first, then - asyncio only - the coroutine handlers, each group in subscription order); nothing escapes onMessage;
+   the session state is unchanged; nothing is sent.                                                                   *)
 Theorem C11_isolation : forall fl ops ev, let s := final fl ops in
   s_joined s = true -> In (e_sub ev) (keys (s_subs s)) -> nonreentrant_at s (e_sub ev) ->
   fst (step fl s (OpEvent ev)) = s /\
-  invocations (snd (step fl s (OpEvent ev))) = map (expected_invocation ev) (attached s (e_sub ev)) /\
+  invocations (snd (step fl s (OpEvent ev)))
+    = map (expected_invocation ev) (filter (fun e => negb (deferred fl e)) (attached s (e_sub ev)))
+      ++ map (expected_invocation ev) (filter (deferred fl) (attached s (e_sub ev))) /\
   (forall x, ~ In (ORaised x) (snd (step fl s (OpEvent ev)))) /\
   filter sends_unsubscribe (snd (step fl s (OpEvent ev))) = [].
 Proof. exact isolation. Qed.
@@ -167,6 +184,20 @@ Example C11_regression_unsubscribe_during_dispatch :
   invoked_labels (snd (step Tx s (OpEvent (w_event [])))) = [1; 2; 4] /\
   labels (attached (fst (step Tx s (OpEvent (w_event [])))) 71) = [2; 4].
 Proof. cbv zeta. vm_compute. auto. Qed.
+
+(* check_types: h1(level: int, *values, **fields) [check_types], h2 plain (unsubscribes h1 when called),
+   h3(kind: str, *values) [check_types]; EVENT args [1], kwargs {a: 1}.
+   Twisted: h1 receives exactly the published payload, h2 runs, h3 is rejected by the wrapper (keyword "a" does not
+   bind: TypeError; with no kwargs its str hint fails: TypeCheckError) - both reported to onUserError, nothing escapes.
+   asyncio: h2 (plain) runs inside the loop, h1's Task body runs in the next loop turn - with the same arguments. *)
+Example C11_check_types_nonvacuous :
+  map observable_invocation (snd (step Tx (final Tx w_checked_ops) (OpEvent (w_event [(0, KInt 1%Z)]))))
+    = [Some (1, [1%Z], [(0, KInt 1%Z)], true); Some (2, [1%Z], [(0, KInt 1%Z)], true); None;
+       Some (3, [1%Z], [(0, KInt 1%Z)], false); None] /\
+  In (OUserError 3 ETypeError) (snd (step Tx (final Tx w_checked_ops) (OpEvent (w_event [(0, KInt 1%Z)])))) /\
+  In (OUserError 3 ETypeCheck) (snd (step Tx (final Tx w_checked_ops) (OpEvent (w_event [])))) /\
+  invoked_labels (snd (step Aio (final Aio w_checked_ops) (OpEvent (w_event [(0, KInt 1%Z)])))) = [2; 1; 3].
+Proof. vm_compute. intuition. Qed.
 
 (* plain fan-out and isolation apply to a reachable three-handler state; the middle handler raises, the third rejects
    the published keyword: all three are invoked, two user errors are reported, nothing escapes *)
